@@ -39,6 +39,13 @@ def tamper (c : Ciphertext) (idx delta : Nat) : Ciphertext :=
   let v := ciphertextToArray c
   ciphertextOfArray (v.setIfInBounds idx (Spec.fadd (v.getD idx 0) delta))
 
+/-- add the transform of the small element `delta·X^k` to ring element `which` (0..3: `bg`, 4: `bga_m`) -/
+def tamperNoise (c : Ciphertext) (which k delta : Nat) : Ciphertext :=
+  let e : Ring := Array.ofFn (n := 64) fun i => if i.val == k then delta % P else 0
+  let eh := ntt64 e
+  if which < 4 then { c with bg := c.bg.setIfInBounds which (ringAdd (c.bg.getD which ringZero) eh) }
+  else { c with bgaM := c.bgaM.setIfInBounds 0 (ringAdd (c.bgaM.getD 0 ringZero) eh) }
+
 def lat : Handler
   | "cntt", [x] => do let a ← ring? x; pure (okRing (ntt64 a))
   | "cintt", [x] => do let a ← ring? x; pure (okRing (intt64 a))
@@ -94,6 +101,13 @@ def lat : Handler
       let (sk, pk) := keygen keccakOracles a
       let (_, c) := enc keccakOracles pk b
       pure ("ok:" ++ fmtOptBytes (dec keccakOracles sk (tamper c idx (delta % P))))
+  | "tampernoise", [r1, r2, .nat which, .nat k, .nat delta] => do
+      let a ← bytes? 32 r1
+      let b ← bytes? 32 r2
+      if which ≥ 5 || k ≥ 64 then none else
+      let (sk, pk) := keygen keccakOracles a
+      let (_, c) := enc keccakOracles pk b
+      pure ("ok:" ++ fmtOptBytes (dec keccakOracles sk (tamperNoise c which k delta)))
   | "unrelated", [r1, r2, r3] => do
       let a ← bytes? 32 r1
       let a' ← bytes? 32 r2
